@@ -229,11 +229,13 @@ def eval_daemon(it: dict[str, Any], tag: str) -> dict[str, Any]:
     if it.get("appear") and it["target"] not in argv:
         # variant: the daemon has never seen the file; it first appears half-saved, then complete
         without = {p: t for p, t in files0.items() if p != it["target"]}
+        # (every other member also names the new file in the request, like `dmypy check <dir>` would)
+        argv2 = argv + [it["target"]] if it["index"] % 2 == 0 else argv
         steps = [
             {"files": without, "mt": {p: t0 for p in without}, "request": {"cmd": "check", "files": argv}},
-            {"files": f1, "mt": mt1, "request": {"cmd": "check", "files": argv}},
-            {"files": f1, "mt": mt1, "request": {"cmd": "check", "files": argv}},
-            {"files": files0, "mt": mt2, "request": {"cmd": "check", "files": argv}},
+            {"files": f1, "mt": mt1, "request": {"cmd": "check", "files": argv2}},
+            {"files": f1, "mt": mt1, "request": {"cmd": "check", "files": argv2}},
+            {"files": files0, "mt": mt2, "request": {"cmd": "check", "files": argv2}},
         ]
     root = kit.new_dir(f"c20-{os.getpid()}-{tag}d")
     try:
